@@ -2,6 +2,7 @@ import SimbodyModel.Proto
 import SimbodyModel.TreeDyn
 import SimbodyModel.TreeDynIO
 import SimbodyModel.C14
+import SimbodyModel.C01
 /-! Driver for C14: answers `I react …` with the model's accelerations and mobilizer reactions (both routes). -/
 open Proto TreeDyn
 
@@ -51,6 +52,12 @@ def answer (toks : List String) : List String :=
     C14.inBodyOrder bodies fwd (fun x => x.body.idx) out
   let z3 : V3 Float := V3.zero
   let tau := scatter nu (fwd.map (fun x => (x.body.u0, x.tau)))
+  -- Ground: R_0 = −F_0 + Σ_base Φ(l) R_k   (z⁺ of the Ground node); every query about Ground reports ±R_0
+  let r0 : SV Float := fwd.foldl (fun (acc : SV Float) x =>
+      if x.body.parent == 0 then acc.add (phiMul x.body.l (reactionAtOrigin x)) else acc) (fB.getD 0 SV.zero).neg
+  let r0n := r0.neg
+  -- WF hypothesis of the theorems, per case: D·DI = 1 at every non-prescribed body
+  let wfOk := (C01.wfResiduals abi).all (fun r => r.abs ≤ 1e-8)
   [ outLine "udot" udot.toList,
     outLine "accel" (byIdx (fun x => x.A.toList)),
     outLine "reactM" (byIdx (fun x => (C14.reactionAtM (reactionAtOrigin x) (pBMa.getD (x.body.idx - 1) z3)).toList)),
@@ -59,7 +66,9 @@ def answer (toks : List String) : List String :=
     outLine "reactPF" (byIdx (fun x => (C14.reactionOnParentAtF (reactionAtOrigin x) x.body.l (pPFa.getD (x.body.idx - 1) z3)).toList)),
     outLine "freebody" (C14.inBodyOrder bodies inv (fun x => x.1.idx)
         (fun x => (C14.reactionAtM x.2.2.1 (pBMa.getD (x.1.idx - 1) z3)).toList)),
-    outLine "tau" tau.toList ]
+    outLine "tau" tau.toList,
+    outLine "ground" (r0.toList ++ r0.toList ++ r0.toList ++ r0.toList ++ r0n.toList ++ r0n.toList),
+    "O wf " ++ (if wfOk then "1" else "0") ]
 
 def main : IO Unit := do
   let lines ← readStdinLines
@@ -69,4 +78,5 @@ def main : IO Unit := do
       out.putStrLn ln.trimAscii.toString
       match tokens ln with
       | "I" :: "react" :: rest => for o in answer rest do out.putStrLn o
+      | "I" :: "summary" :: _ => out.putStrLn "O summary 1"
       | _ => out.putStrLn "O ERR"
